@@ -62,6 +62,10 @@ def handle (j : Json) : Except String Json := do
         (s', out :: acc.2)) (Graph.init base, [])
     pure <| obj [("replies", Json.arr outs.reverse.toArray),
       ("edges", ofList (fun e => Json.arr #[ofNat e.1.1, ofNat e.1.2, ofAff e.2]) s.forest.edges),
+      ("rebuilt_edges", ofList (fun e => Json.arr #[ofNat e.1.1, ofNat e.1.2, ofAff e.2])
+        (fromEdgelist (toEdgelist s.forest)).edges),
+      ("rebuilt_parents", ofList (fun (e : Nat × Nat) => Json.arr #[ofNat e.1, ofNat e.2])
+        (fromEdgelist (toEdgelist s.forest)).parents),
       ("nodes", ofList ofNat s.forest.nodes)]
   | _ => throw s!"bad-op {op}"
 
